@@ -137,6 +137,9 @@ def c17 (op : String) (a : Array Json) : R (Option Json) := do
       let kwIds := kws.map fun k => (Gen.names.idxOf? k).getD unknown
       pure (Json.str (nep18Str (nep18Gen Gen.dispatchTable cls pathIds nid npos kwIds)))
     pure (some (okJ (Json.arr outs.toArray)))
+  | "c17_outer_prepare" =>
+    let nd ← jList jNat (← arg a 1)
+    pure (some (okJ (Json.arr ((outerPrepare nd).map fun e => Json.arr #[natJ e.1, natJ e.2]).toArray)))
   | "c17_ufunc_route" =>
     let o ← jBool (← arg a 1); let s ← jBool (← arg a 2); let m ← (← arg a 3).getStr?
     pure (some (okJ (Json.str (routeStr (arrayUfunc o s m)))))
